@@ -223,7 +223,7 @@ def _decide(req, guards, must_mention):
 
 
 @rule('SA-FIT.ce_block')
-@props('C04', 'C08')
+@props('C01', 'C02', 'C04', 'C08')
 def ce_block(ctx):
     obs = []
     cls = ctx.cls(CEB)
